@@ -246,6 +246,8 @@ Proof.
       rewrite Ln2, Le3, Ln1, Le0, rev_app_distr, map_app, app_assoc. reflexivity.
   - intros k body IH Hw. discriminate.
   - intros Hw. discriminate.
+  - intros a b n o m Hw. discriminate.
+  - intros q ip a b n Hw. discriminate.
   - intros _ st c st' ar H F. inv_ok H. exists []. rewrite app_nil_r. cbn. split; [auto|split; [auto|split; [auto|split; [apply dwf_nil|reflexivity]]]].
   - intros s IHs b IHb Hw st c st' ar H F. cbn [bwfs] in Hw.
     apply andb_prop in Hw. destruct Hw as [Hw1 Hw2].
